@@ -19,7 +19,9 @@ import (
 	"os"
 	"path/filepath"
 	"runtime"
+	"sort"
 	"strings"
+	"sync"
 	"sync/atomic"
 	"time"
 
@@ -410,8 +412,362 @@ func c19RunPolicy(b core.Batch, r *core.Recorder) {
 	r.Sample(map[string]any{"part": "policy", "what": "ignore_cache_control and retry_on_invalid_range switched at random between requests; the very next request must follow the new value"})
 }
 
+// ---- (5) first use of a setting's event from several goroutines at once ---------------------------
+
+type c19prop struct {
+	name      string
+	subscribe func(cfg *config.Config, got *atomic.Int64, last *atomic.Int64) func()
+	change    func(cfg *config.Config, v int64)
+}
+
+var c19props = []c19prop{
+	{"proxy.cache_policy.ignore_cache_control",
+		func(cfg *config.Config, got, last *atomic.Int64) func() {
+			return cfg.Proxy.CachePolicy.IgnoreCacheControl.OnChange(func(v bool) { last.Store(map[bool]int64{false: 0, true: 1}[v]); got.Add(1) })
+		},
+		func(cfg *config.Config, v int64) { cfg.Proxy.CachePolicy.IgnoreCacheControl.Overwrite(v%2 == 1) }},
+	{"proxy.cache_policy.default_max_age",
+		func(cfg *config.Config, got, last *atomic.Int64) func() {
+			return cfg.Proxy.CachePolicy.DefaultMaxAge.OnChange(func(v duration.Duration) { last.Store(int64(v)); got.Add(1) })
+		},
+		func(cfg *config.Config, v int64) { cfg.Proxy.CachePolicy.DefaultMaxAge.Overwrite(duration.Duration(v)) }},
+	{"cache.max_cache_size",
+		func(cfg *config.Config, got, last *atomic.Int64) func() {
+			return cfg.Cache.MaxCacheSize.OnChange(func(v bytesize.ByteSize) { last.Store(int64(v)); got.Add(1) })
+		},
+		func(cfg *config.Config, v int64) { cfg.Cache.MaxCacheSize.Overwrite(bytesize.ByteSize(v)) }},
+	{"cache.lock_shards",
+		func(cfg *config.Config, got, last *atomic.Int64) func() {
+			return cfg.Cache.LockShards.OnChange(func(v int) { last.Store(int64(v)); got.Add(1) })
+		},
+		func(cfg *config.Config, v int64) { cfg.Cache.LockShards.Overwrite(int(v)) }},
+}
+
+// c19RunFirstUse: on a configuration nobody has touched yet, the first subscriptions and the first changes of one
+// setting are released at the same instant from separate goroutines (a dashboard update arriving while a component
+// is still starting up). Afterwards a further change must reach every listener subscribed in the scramble.
+func c19RunFirstUse(b core.Batch, r *core.Recorder) {
+	rounds := b.Int("rounds", 150)
+	for n := 0; n < rounds; n++ {
+		for pi, pr := range c19props {
+			id := fmt.Sprintf("u%d-%d", n, pi)
+			shape := n % 4 // 0: sub+change+change, 1: sub+sub+change, 2: change+change+change, 3: sub+sub+change+change
+			if !r.Case(id, map[string]any{"setting": pr.name, "shape": shape}) {
+				continue
+			}
+			r.Eval(1)
+			cfg := config.NewDefault()
+			const L = 2
+			var got, last [L]atomic.Int64
+			unsub := make([]func(), L)
+			start := make(chan struct{})
+			var wg sync.WaitGroup
+			run := func(f func()) {
+				wg.Add(1)
+				go func() {
+					defer wg.Done()
+					<-start
+					f()
+				}()
+			}
+			nsub := []int{1, 2, 0, 2}[shape]
+			nchg := []int{2, 1, 3, 2}[shape]
+			for i := 0; i < nsub; i++ {
+				run(func() { unsub[i] = pr.subscribe(cfg, &got[i], &last[i]) })
+			}
+			for i := 0; i < nchg; i++ {
+				run(func() { pr.change(cfg, int64(10+i)) })
+			}
+			var panicked any
+			func() {
+				defer func() { panicked = recover() }()
+				close(start)
+				wg.Wait()
+			}()
+			cs := map[string]any{"id": id, "setting": pr.name, "subscribers_in_the_scramble": nsub, "changes_in_the_scramble": nchg}
+			if panicked != nil {
+				r.Violation("C19", "C19:first-use:panic", fmt.Sprint(panicked), cs, nil)
+				continue
+			}
+			for i := nsub; i < L; i++ {
+				unsub[i] = pr.subscribe(cfg, &got[i], &last[i])
+			}
+			// the scramble's own notifications may still be in flight: wait until the counts are stable
+			stable := func() [L]int64 { return [L]int64{got[0].Load(), got[1].Load()} }
+			prev := stable()
+			for k := 0; k < 200; k++ {
+				time.Sleep(2 * time.Millisecond)
+				cur := stable()
+				if cur == prev && k > 2 {
+					break
+				}
+				prev = cur
+			}
+			final := int64(1000 + n)
+			if pr.name == "proxy.cache_policy.ignore_cache_control" {
+				final = 1 - last[0].Load() // a bool: flip whatever the first listener saw last
+			}
+			before := stable()
+			pr.change(cfg, final)
+			ok := waitFor(func() bool { return got[0].Load() > before[0] && got[1].Load() > before[1] }, 5*time.Second)
+			r.Count("first_use_scrambles", 1)
+			r.Nontrivial("firstuse", pr.name, shape, n)
+			if !ok {
+				r.Violation("C19", "C19:first-use:listener-lost", fmt.Sprintf("after %d subscriptions and %d changes of %s released at once, a later change did not reach every listener (calls before %v, after %v)", nsub, nchg, pr.name, before, stable()), cs, nil)
+			} else {
+				time.Sleep(2 * time.Millisecond)
+				for i := 0; i < L; i++ {
+					want := final
+					if pr.name == "proxy.cache_policy.ignore_cache_control" {
+						want = final % 2
+					}
+					if last[i].Load() != want {
+						r.Violation("C19", "C19:first-use:stale-final-value", fmt.Sprintf("listener %d of %s ended on %d, the last change was %d", i, pr.name, last[i].Load(), want), cs, nil)
+					}
+				}
+			}
+			for _, u := range unsub {
+				if u != nil {
+					u()
+				}
+			}
+		}
+	}
+	r.Sample(map[string]any{"part": "firstuse", "what": "fresh configuration; first subscriptions and first changes of one never-used setting released at the same instant from 3-4 goroutines; then one more change must reach both listeners with its value"})
+}
+
+// ---- (6) a listener is shut down while a notification round is under way --------------------------
+
+// c19RunUnsubDuringFire: K listeners on one setting; one goroutine changes the setting while others unsubscribe some
+// of the earliest listeners. Every listener that is not being shut down must be called exactly once for the change;
+// a listener shut down in the scramble may be called once or not at all.
+func c19RunUnsubDuringFire(b core.Batch, r *core.Recorder) {
+	rounds := b.Int("rounds", 300)
+	wait, misses := 3*time.Second, 0 // bounded cost on a broken tree: after 5 misses the waits shrink
+	for n := 0; n < rounds; n++ {
+		id := fmt.Sprintf("f%d", n)
+		K := []int{3, 8, 64, 512}[n%4]
+		nun := 1 + n%3
+		if !r.Case(id, map[string]any{"listeners": K, "unsubscribed_during_the_change": nun}) {
+			continue
+		}
+		r.Eval(1)
+		cfg := config.NewDefault()
+		calls := make([]atomic.Int64, K)
+		unsub := make([]func(), K)
+		for i := 0; i < K; i++ {
+			unsub[i] = cfg.Cache.MaxCacheSize.OnChange(func(bytesize.ByteSize) { calls[i].Add(1) })
+		}
+		victims := map[int]bool{}
+		for v := 0; v < nun; v++ {
+			victims[(v*7)%min(K-1, 5)] = true // early positions: the tail shifts when they are cut out
+		}
+		start := make(chan struct{})
+		var wg sync.WaitGroup
+		wg.Add(1)
+		go func() {
+			defer wg.Done()
+			<-start
+			cfg.Cache.MaxCacheSize.Overwrite(bytesize.ByteSize(7000 + n))
+		}()
+		for v := range victims {
+			wg.Add(1)
+			go func() {
+				defer wg.Done()
+				<-start
+				for k := 0; k < n%5; k++ {
+					runtime.Gosched()
+				}
+				unsub[v]()
+			}()
+		}
+		close(start)
+		wg.Wait()
+		survivors := K - len(victims)
+		waitFor(func() bool {
+			got := 0
+			for i := range calls {
+				if !victims[i] && calls[i].Load() >= 1 {
+					got++
+				}
+			}
+			return got == survivors
+		}, wait)
+		time.Sleep(2 * time.Millisecond)
+		r.Count("changes_with_concurrent_unsubscribe", 1)
+		r.Nontrivial("unsub-during-fire", K, nun, n)
+		cs := map[string]any{"id": id, "listeners": K, "unsubscribed_during_the_change": len(victims)}
+		var missed, twice []int
+		for i := range calls {
+			c := calls[i].Load()
+			if (!victims[i] && c == 0) && len(missed) < 5 {
+				missed = append(missed, i)
+			}
+			if c > 1 && len(twice) < 5 {
+				twice = append(twice, i)
+			}
+		}
+		if len(missed) > 0 {
+			if misses++; misses >= 5 {
+				wait = 50 * time.Millisecond
+			}
+			r.Violation("C19", "C19:unsubscribe-during-change:live-listener-skipped", fmt.Sprintf("%d listeners, %v shut down while the change was being announced: live listeners %v were never told (called twice: %v)", K, c19keys(victims), missed, twice), cs, nil)
+		} else if len(twice) > 0 {
+			r.Violation("C19", "C19:unsubscribe-during-change:listener-called-twice", fmt.Sprintf("%d listeners, %v shut down while the change was being announced: listeners %v were told twice", K, c19keys(victims), twice), cs, nil)
+		}
+		// a second change, after the dust has settled, reaches exactly the survivors
+		for i := range calls {
+			calls[i].Store(0)
+		}
+		cfg.Cache.MaxCacheSize.Overwrite(bytesize.ByteSize(9000 + n))
+		waitFor(func() bool {
+			got := 0
+			for i := range calls {
+				if !victims[i] && calls[i].Load() >= 1 {
+					got++
+				}
+			}
+			return got == survivors
+		}, wait)
+		time.Sleep(2 * time.Millisecond)
+		for i := range calls {
+			c := calls[i].Load()
+			if victims[i] && c != 0 {
+				r.Violation("C19", "C19:unsubscribed-listener-still-called", fmt.Sprintf("listener %d was shut down during the previous change and was told about a later one", i), cs, nil)
+				break
+			}
+			if !victims[i] && c != 1 {
+				r.Violation("C19", "C19:listener-detached-by-another-unsubscribe", fmt.Sprintf("after %v were shut down, live listener %d was told %d times about the next change", c19keys(victims), i, c), cs, nil)
+				break
+			}
+		}
+		for i, u := range unsub {
+			if !victims[i] {
+				u()
+			}
+		}
+	}
+	r.Sample(map[string]any{"part": "unsub-during-fire", "what": "3..512 listeners; 1-3 early listeners unsubscribe from other goroutines at the instant the setting changes"})
+}
+
+func c19keys(m map[int]bool) []int {
+	var out []int
+	for k := range m {
+		out = append(out, k)
+	}
+	sort.Ints(out)
+	return out
+}
+
+// ---- (7) a configuration loaded from the file, changed through the API ---------------------------
+
+// c19RunLoaded: the configuration is loaded from an existing file (as at a normal start); a recorder listens on
+// every setting; the FIRST change of each setting arrives through the API entry point, with values that include the
+// zero value of the setting's type. Whenever an accepted update moves the effective value of a setting, its
+// listeners must be told the new value.
+func c19RunLoaded(b core.Batch, r *core.Recorder) {
+	rig.QuietLogs()
+	os.MkdirAll("var", 0o755)
+	os.Remove("var/config.json")
+	if _, err := config.LoadOrDefault("var/config.json"); err != nil { // writes the defaults
+		r.Inconclusive("cannot write the default configuration: " + err.Error())
+		return
+	}
+	defFile, _ := os.ReadFile("var/config.json")
+	leafType := map[string]any{}
+	if flat, _, err := cfgFileValues("var/config.json"); err == nil {
+		leafType = flat
+	}
+	paths := make([]string, 0, len(leafType))
+	for k := range leafType {
+		paths = append(paths, k)
+	}
+	sort.Strings(paths)
+	for _, path := range paths {
+		var cands []any
+		switch v := leafType[path].(type) {
+		case bool:
+			cands = []any{!v}
+		case float64:
+			cands = []any{0, 1, int(v) + 1}
+		case string:
+			switch {
+			case strings.HasSuffix(path, "level"):
+				cands = []any{"INFO", "DEBUG", "WARN", "ERROR"}
+			case strings.Contains(path, "size"):
+				cands = []any{"0B", "1B", "5M"}
+			case strings.Contains(path, "interval") || strings.Contains(path, "age"):
+				cands = []any{"0s", "1s", "90m"}
+			case path == "cache.type":
+				cands = []any{"memory", "file"}
+			default:
+				cands = []any{"", "x1"}
+			}
+		}
+		for ci, cand := range cands {
+			id := fmt.Sprintf("l:%s:%d", path, ci)
+			if !r.Case(id, map[string]any{"setting": path, "first_change_to": cand}) {
+				continue
+			}
+			r.Eval(1)
+			os.WriteFile("var/config.json", defFile, 0o644)
+			cfg, err := config.LoadOrDefault("var/config.json")
+			if err != nil {
+				r.NotJudged("load-failed")
+				continue
+			}
+			var mu sync.Mutex
+			lastEv := map[string]any{}
+			nEv := map[string]int{}
+			cfgSubscribeAll(cfg, func(p string, v any) {
+				mu.Lock()
+				lastEv[p] = v
+				nEv[p]++
+				mu.Unlock()
+			})
+			before := cfgWalk(cfg)
+			st, uerr := config.UpdatePartialFromConfig(cfg, cfgNest(map[string]any{path: cand}))
+			if uerr != nil || st == config.UpdateStatusFailed {
+				r.Count("loaded_first_changes_refused", 1)
+				continue
+			}
+			after := cfgWalk(cfg)
+			if fmt.Sprint(before[path]) == fmt.Sprint(after[path]) {
+				r.Count("loaded_first_changes_without_effect", 1)
+				continue
+			}
+			want := fmt.Sprint(after[path])
+			ok := waitFor(func() bool {
+				mu.Lock()
+				defer mu.Unlock()
+				return nEv[path] > 0 && fmt.Sprint(lastEv[path]) == want
+			}, 3*time.Second)
+			r.Count("loaded_first_changes_judged", 1)
+			r.Nontrivial("loaded", path, fmt.Sprint(cand))
+			if !ok {
+				mu.Lock()
+				n, last := nEv[path], lastEv[path]
+				mu.Unlock()
+				cls := "other"
+				if want == "0" || want == "false" || want == "" {
+					cls = "to-the-zero-value"
+				}
+				r.Violation("C19", "C19:loaded-config:listener-not-told:"+cls, fmt.Sprintf("configuration loaded from the file; the accepted update %s=%v moved the setting from %v to %v, but its listener was told %d times (last %v)", path, cand, before[path], after[path], n, last),
+					map[string]any{"id": id, "setting": path, "first_change_to": cand}, nil)
+			}
+		}
+	}
+	r.Sample(map[string]any{"part": "loaded", "settings": len(paths), "what": "per setting a configuration freshly loaded from the default file, a recorder on every setting, then the first API update of that setting (bool flipped; numbers 0/1/n+1; levels; sizes; durations)"})
+}
+
 func c19Run(b core.Batch, r *core.Recorder) {
 	switch b.Str("part", "set") {
+	case "unsub-during-fire":
+		c19RunUnsubDuringFire(b, r)
+	case "loaded":
+		c19RunLoaded(b, r)
+	case "firstuse":
+		c19RunFirstUse(b, r)
 	case "set":
 		c19RunSet(b, r)
 	case "latest":
@@ -436,6 +792,10 @@ func c19Plan(tier string, seed int64) []core.Batch {
 		bs = append(bs, core.Batch{Name: "latest-gomaxprocs" + gmp, Race: gmp == "2", TimeoutS: 1800, Env: []string{"GOMAXPROCS=" + gmp}, Args: map[string]any{"part": "latest", "bursts": bursts}})
 	}
 	bs = append(bs, core.Batch{Name: "shutdown", Race: true, TimeoutS: 1800, Args: map[string]any{"part": "shutdown", "reps": reps}})
+	bs = append(bs, core.Batch{Name: "firstuse", Race: true, TimeoutS: 1800, Args: map[string]any{"part": "firstuse", "rounds": bursts * 3}})
+	bs = append(bs, core.Batch{Name: "unsub-during-fire", TimeoutS: 1800, Args: map[string]any{"part": "unsub-during-fire", "rounds": bursts * 10}})
+	bs = append(bs, core.Batch{Name: "unsub-during-fire-race", Race: true, TimeoutS: 1800, Args: map[string]any{"part": "unsub-during-fire", "rounds": bursts * 2}})
+	bs = append(bs, core.Batch{Name: "loaded", TimeoutS: 1800, Args: map[string]any{"part": "loaded"}})
 	bs = append(bs, core.Batch{Name: "policy", TimeoutS: 1800, Args: map[string]any{"part": "policy", "n": bursts}})
 	return bs
 }
@@ -446,11 +806,11 @@ func init() {
 		Level: "exploration",
 		Rule: "set model: every sequence up to <depth> over {subscribe (<=4 listeners), unsubscribe_i (also repeated), fire} on ConfigProp.OnChange plus seeded random sequences of 8-30 ops with up to 8 listeners; after every fire exactly the model's listener set must have been called once each, no panic. " +
 			"latest value: bursts of 2-10 back-to-back changes of max_cache_size / memory_budget_percent / cleanup_interval on live memory and file caches and of the log level on the real logger, under GOMAXPROCS 1, 2, 16; at observed quiescence the component state must equal the last value. " +
-			"shutdown: three caches on one config, every prefix of every destruction order, then a change must reach exactly the survivors. policy: ignore_cache_control / retry_on_invalid_range / retry_on_range_416 toggled between requests through the real proxy. Non-trivial = distinct sequence with a fire and >= 2 listeners / burst / order / toggle.",
+			"shutdown: three caches on one config, every prefix of every destruction order, then a change must reach exactly the survivors. first use: on a fresh configuration the first subscriptions and first changes of a never-used setting are released at once from 3-4 goroutines, then a further change must reach every listener with its value (race build). unsubscribe during a change: 3..512 listeners, 1-3 early ones shut down from other goroutines at the instant the setting changes; survivors must each be told exactly once, also about the next change. loaded configuration: per setting a configuration loaded from the file, then its first change through the API entry point (including to the zero value of its type) must reach its listener. policy: ignore_cache_control / retry_on_invalid_range / retry_on_range_416 toggled between requests through the real proxy. Non-trivial = distinct sequence with a fire and >= 2 listeners / burst / order / toggle.",
 		Assumptions: []string{"quiescence is observed (co-listeners counted, janitor.interval.applied hook), bursts where it is not reached within 10 s are not judged", "settings are changed with ConfigProp.Overwrite, the same entry point command-line overrides use"},
 		Plan:        c19Plan,
 		Run:         c19Run,
 		Parallel:    5,
-		Floors:      map[string]map[string]int64{"quick": {"set_sequences_matching_model": 1500, "bursts_judged": 200, "shutdown_orders_checked": 30, "policy_switch_checks": 30}, "thorough": {"set_sequences_matching_model": 10000, "bursts_judged": 8000, "shutdown_orders_checked": 500, "policy_switch_checks": 1200}},
+		Floors:      map[string]map[string]int64{"quick": {"set_sequences_matching_model": 1500, "bursts_judged": 200, "shutdown_orders_checked": 30, "policy_switch_checks": 30, "first_use_scrambles": 300, "changes_with_concurrent_unsubscribe": 400, "loaded_first_changes_judged": 30}, "thorough": {"set_sequences_matching_model": 10000, "bursts_judged": 8000, "shutdown_orders_checked": 500, "policy_switch_checks": 1200, "first_use_scrambles": 10000, "changes_with_concurrent_unsubscribe": 15000, "loaded_first_changes_judged": 30}},
 	})
 }
